@@ -46,6 +46,7 @@ type CoreKnobs struct {
 	StopTimeoutP       int      // permille of processes with a shutdown timeout
 	IgnoreTermP        int      // permille of processes ignoring SIGTERM (always with a timeout)
 	DisabledP          int
+	StopCmdP           int // permille of processes with a shutdown command (succeeds / fails / hangs)
 	MaxLifeMs          int
 	Replicated         bool
 }
@@ -159,6 +160,29 @@ func GenCore(r *R, k *CoreKnobs, sc *Scenario) {
 				p.StopTimeout = iptr(Pick(r, 1, 2, 4))
 			}
 		}
+		if r.P(k.StopCmdP) {
+			p.StopCmd = p.Token
+			// a successful shutdown command is never followed by SIGKILL: termination is
+			// owed only if the process honours the command's signal
+			for l := range ts.Launches {
+				ts.Launches[l].Ignore = nil
+			}
+			var sc2 simos.Script
+			switch r.Intn(10) {
+			case 0, 1, 2, 3, 4, 5:
+				sc2 = simos.Script{LifeMs: Pick(r, 10, 200, 1500), Exit: 0, KillToken: p.Token, KillSig: 15, KillAtMs: Pick(r, 0, 5, 100)}
+			case 6, 7:
+				sc2 = simos.Script{LifeMs: Pick(r, 10, 300), Exit: Pick(r, 1, 2, 127)} // fails without stopping anything
+			case 8:
+				sc2 = simos.Script{LifeMs: 50, Exit: 3, KillToken: p.Token, KillSig: 15} // stops it but reports failure
+			default:
+				sc2 = simos.Script{LifeMs: -1} // hangs until its time-out
+			}
+			sc.Scripts["simstop:"+p.Token] = &TokenScript{Launches: []simos.Script{sc2}}
+			if r.P(500) {
+				p.StopTimeout = iptr(Pick(r, 1, 2, 4))
+			}
+		}
 		// dependencies on earlier processes
 		for j := 0; j < i; j++ {
 			if !r.P(k.EdgeP) {
@@ -243,6 +267,11 @@ func genProbeScript(r *R, k *CoreKnobs, sc *Scenario, tok string) {
 		nfail = Pick(r, 0, 0, 1, 2, 3)
 	}
 	for i := 0; i < nfail && i < 6; i++ {
+		if r.P(250) {
+			// a probe command that hangs until its time-out kills it
+			ts.Launches = append(ts.Launches, simos.Script{LifeMs: -1})
+			continue
+		}
 		ts.Launches = append(ts.Launches, simos.Script{LifeMs: Pick(r, 10, 200), Exit: 1})
 	}
 	if nfail < 50 {
